@@ -313,9 +313,12 @@ def dockerRecord : List (String × String) :=
    ("Proto", "recv.proto"), ("ScanType", "ScanType"), ("Version", "call:ServerVersion#0")]
 /-- `dockerScan`: ONE deadline of `dataTimeout` for the probe, set before anything else -/
 def dockerScanDeadline : String := "recv.dataTimeout"
-/-- negotiation on, the scanner's own HTTP client and scheme, the request's host -/
+/-- negotiation on, the scheme, the request's host, and LAST the scanner's own HTTP client: `WithHost`
+    configures the transport of whatever client it finds — including the proxies of the environment
+    (HTTP_PROXY, ALL_PROXY) — so the scanner's client must be installed after it, or probes would go to
+    the proxy instead of the target (D27) -/
 def dockerClientOpts : String :=
-  "moby.WithAPIVersionNegotiation(); moby.WithHTTPClient(recv.client); moby.WithScheme(recv.proto); moby.WithHost(\"tcp://\" + fmt.Sprintf(\"%s:%d\", arg1.DstIP.String(), arg1.DstPort))"
+  "moby.WithAPIVersionNegotiation(); moby.WithScheme(recv.proto); moby.WithHost(\"tcp://\" + fmt.Sprintf(\"%s:%d\", arg1.DstIP.String(), arg1.DstPort)); moby.WithHTTPClient(recv.client)"
 /-- `dockerInfoGet`: negotiation, own request under the probe's context, bounded `ReadAll`, whole-body `Unmarshal` -/
 def dockerInfoCalls : List String :=
   ["NegotiateAPIVersion", "NewRequestWithContext", "Do", "ReadAll", "LimitReader", "Unmarshal"]
